@@ -20,6 +20,9 @@ struct Sched {
     busy_parser: bool, busy_ctrl: bool, progress: Instant,
     ctrl_done: bool, ctrl_at: String,
     recv: Vec<String>, rets: Vec<String>, clean: bool, early: bool, reported: bool,
+    // model-free bookkeeping for the oracle: the breakpoint set as the controller has left it, and what it was
+    // each time the parser thread looked an entry up (run number, entry index, set)
+    bps_view: Vec<u32>, run_no: usize, entry_idx: usize, locks: Vec<(usize, usize, Vec<u32>)>,
 }
 type Shared = Arc<(Mutex<Sched>, Condvar)>;
 
@@ -43,6 +46,8 @@ fn turn(sh: &Shared, label: &str) {
             if mine { g.cursor += 1; }
             // in free mode only the parser's labels are kept: the action it is blocked in, if the model is right
             if mine { g.passed.push(label.to_string()); } else if parser { g.after.push(label.to_string()); }
+            if label == "parser.check_done" { g.entry_idx += 1; }
+            if label == "parser.lock_bps" { let rec = (g.run_no, g.entry_idx.saturating_sub(1), g.bps_view.clone()); g.locks.push(rec); }
             if parser { g.busy_parser = true } else { g.busy_ctrl = true }
             g.progress = Instant::now();
             cv.notify_all();
@@ -78,7 +83,7 @@ fn worker(case: &str, trace: &str) {
     let plain_ok = kv.get("ok").map(|x| *x == "1").unwrap_or(true);
     let static_bps = !cmds.iter().any(|c| c.starts_with("add") || c.starts_with("del"));
     let sh: Shared = Arc::new((Mutex::new(Sched { trace: if trace == "-" { vec![] } else { trace.split(',').map(|s| s.to_string()).collect() }, cursor: 0, passed: vec![], after: vec![], free: false,
-        busy_parser: false, busy_ctrl: true, progress: Instant::now(), ctrl_done: false, ctrl_at: String::new(), recv: vec![], rets: vec![], clean: true, early: false, reported: false }), Condvar::new()));
+        busy_parser: false, busy_ctrl: true, progress: Instant::now(), ctrl_done: false, ctrl_at: String::new(), recv: vec![], rets: vec![], clean: true, early: false, reported: false, bps_view: vec![], run_no: 0, entry_idx: 0, locks: vec![] }), Condvar::new()));
     let sh2 = sh.clone();
     pest_debugger::verif::set_hook(Some(Arc::new(move |label: &'static str| turn(&sh2, label))));
     // watchdog: a controller that stops making progress is an observation (blocked), not a crash
@@ -99,7 +104,7 @@ fn worker(case: &str, trace: &str) {
     let mut ctx = DebuggerContext::default();
     ctx.load_grammar_direct("g", GRAMMAR).unwrap();
     ctx.load_input_direct(input);
-    for b in kv["bps"].split(',').filter(|x| !x.is_empty() && *x != "-") { ctx.add_breakpoint(format!("r{}", b)); }
+    for b in kv["bps"].split(',').filter(|x| !x.is_empty() && *x != "-") { ctx.add_breakpoint(format!("r{}", b)); sh.0.lock().unwrap().bps_view.push(b.parse().unwrap_or(0)); }
     let mut cur_rx: Option<Receiver<DebuggerEvent>> = None;
     let mut keep: Vec<Receiver<DebuggerEvent>> = vec![];
     let mut runs: Vec<Vec<String>> = vec![];
@@ -123,7 +128,7 @@ fn worker(case: &str, trace: &str) {
                 if let Some(old) = cur_rx.take() { keep.push(old); }
                 let r = ctx.run(&start, tx);
                 let mut g = sh.0.lock().unwrap();
-                match r { Ok(()) => { g.rets.push("run:ok".into()); g.passed.push("SPAWN".into()); cur_rx = Some(rx); runs.push(vec![]); conts_in_run = 0; early = false; } Err(_) => { g.rets.push("run:panic".into()); cur_rx = None; } }
+                match r { Ok(()) => { g.rets.push("run:ok".into()); g.passed.push("SPAWN".into()); g.run_no += 1; g.entry_idx = 0; cur_rx = Some(rx); runs.push(vec![]); conts_in_run = 0; early = false; } Err(_) => { g.rets.push("run:panic".into()); cur_rx = None; } }
             }
             "cont" => {
                 // a continue that does not answer a received, not yet continued breakpoint event
@@ -132,8 +137,8 @@ fn worker(case: &str, trace: &str) {
                 conts_in_run += 1;
                 let r = match ctx.cont() { Ok(()) => "cont:ok", Err(pest_debugger::DebuggerError::EofReached) => "cont:eof", Err(_) => "cont:norun" }; sh.0.lock().unwrap().rets.push(r.into()); }
             "recv" => { let e = match &cur_rx { Some(rx) => match rx.recv() { Ok(e) => ev(&e), Err(_) => "closed".into() }, None => "norun".into() }; if let Some(r) = runs.last_mut() { r.push(e.clone()); } sh.0.lock().unwrap().recv.push(e); }
-            x if x.starts_with("add") => ctx.add_breakpoint(format!("r{}", &x[3..])),
-            x => ctx.delete_breakpoint(&format!("r{}", &x[3..])),
+            x if x.starts_with("add") => { ctx.add_breakpoint(format!("r{}", &x[3..])); let n: u32 = x[3..].parse().unwrap_or(0); let mut g = sh.0.lock().unwrap(); if !g.bps_view.contains(&n) { g.bps_view.push(n); } }
+            x => { ctx.delete_breakpoint(&format!("r{}", &x[3..])); let n: u32 = x[3..].parse().unwrap_or(0); sh.0.lock().unwrap().bps_view.retain(|b| *b != n); }
         }
     }
     { let mut g = sh.0.lock().unwrap(); g.busy_ctrl = false; g.ctrl_done = true; sh.1.notify_all(); }
@@ -144,21 +149,25 @@ fn worker(case: &str, trace: &str) {
     let mut left = vec![];
     // emptying the channel lets a sender that is blocked on the full channel go on: repeat until nothing more arrives
     if let Some(rx) = &cur_rx { loop { let n0 = left.len(); loop { match rx.try_recv() { Ok(e) => left.push(ev(&e)), Err(TryRecvError::Empty) | Err(TryRecvError::Disconnected) => break } } if left.len() == n0 { break; } std::thread::sleep(Duration::from_millis(40)); } }
-    // property (model-free), for runs whose breakpoint set never changed: what a run delivered is a prefix of
-    // the entries of the parse whose rule is a breakpoint, and the final event comes after all of them and is the plain VM's
+    // property (model-free): what run n delivered is a prefix of the entries of the parse whose rule was in the breakpoint
+    // set when the parser thread looked the entry up, and a final event comes after all of them and is the plain VM's
     let mut verdict = "ok".to_string();
-    if static_bps {
-        let want: Vec<&String> = expected_all.iter().filter(|e| bps0.iter().any(|b| e.starts_with(b.as_str()))).collect();
+    {
+        let g = sh.0.lock().unwrap();
+        let entries: Vec<(u32, String)> = expected_all.iter().map(|e| (e[1..].split('@').next().and_then(|r| r.parse().ok()).unwrap_or(0), e.clone())).collect();
         let mut all = runs.clone();
         if let Some(l) = all.last_mut() { l.extend(left.iter().cloned()); }
-        for r in &all {
+        for (ri, r) in all.iter().enumerate() {
+            let want: Vec<&String> = g.locks.iter().filter(|(rn, k, view)| *rn == ri + 1 && entries.get(*k).map_or(false, |e| view.contains(&e.0))).map(|(_, k, _)| &entries[*k].1).collect();
+            let looked = g.locks.iter().filter(|(rn, _, _)| *rn == ri + 1).count();
             let evs: Vec<&String> = r.iter().filter(|e| *e != "closed" && *e != "norun").collect();
             for (i, e) in evs.iter().enumerate() {
-                if e.starts_with('B') { if want.get(i) != Some(e) { verdict = format!("FAIL event {} of a run is {} but the parse's breakpoint entries are {:?}", i, e, want); } }
-                else if i != want.len() || (**e == "eof") != plain_ok { verdict = format!("FAIL final event {} after {} breakpoint events; the parse has {} breakpoint entries and the plain VM parse {}", e, i, want.len(), if plain_ok { "succeeds" } else { "fails" }); }
+                if e.starts_with('B') { if want.get(i) != Some(e) { verdict = format!("FAIL event {} of run {} is {} but the entries whose rule was a breakpoint when they were entered are {:?}", i, ri + 1, e, want); } }
+                else if i != want.len() || looked != entries.len() || (**e == "eof") != plain_ok { verdict = format!("FAIL final event {} after {} breakpoint events of run {}; {} of {} entries were looked up, {} of them breakpoints, and the plain VM parse {}", e, i, ri + 1, looked, entries.len(), want.len(), if plain_ok { "succeeds" } else { "fails" }); }
             }
         }
     }
+    let _ = (&bps0, static_bps);
     let mut g = sh.0.lock().unwrap();
     report(&mut g, &left.join(","), "quiescent", &verdict);
     std::process::exit(0);
